@@ -196,6 +196,10 @@ func SMPHash(version byte, a, b *big.Int) *big.Int {
 // SMPState holds every exponent and intermediate value of one SMP run.
 // Only the fields relevant to the local role are populated.
 type SMPState struct {
+	// Careless: skip every verification of received values (range checks and
+	// zero-knowledge proofs). For an attacker's engine; never set for an honest peer.
+	Careless bool
+
 	State int // SMPExpect1..4; the zero value is treated as SMPExpect1
 
 	// HaveMsg1 is set by Recv1: message 1 was verified and the run waits
@@ -225,7 +229,7 @@ type SMPState struct {
 var ErrSMPState = errors.New("refotr: smp: message not expected in this state")
 
 // Reset aborts the run: all values are forgotten, state is EXPECT1.
-func (s *SMPState) Reset() { *s = SMPState{State: SMPExpect1} }
+func (s *SMPState) Reset() { *s = SMPState{State: SMPExpect1, Careless: s.Careless} }
 
 func (s *SMPState) state() int {
 	if s.State == 0 {
@@ -297,16 +301,16 @@ func (s *SMPState) Recv1(m *SMP1) error {
 	if s.state() != SMPExpect1 {
 		return s.fail(ErrSMPState)
 	}
-	if !InRange(m.G2a) || !InRange(m.G3a) {
+	if !s.Careless && (!InRange(m.G2a) || !InRange(m.G3a)) {
 		return s.fail(errors.New("refotr: smp1: group element out of range"))
 	}
-	if !InRangeQ(m.D2) || !InRangeQ(m.D3) {
+	if !s.Careless && (!InRangeQ(m.D2) || !InRangeQ(m.D3)) {
 		return s.fail(errors.New("refotr: smp1: exponent out of range"))
 	}
-	if !eq(m.C2, SMPHash(1, MulP(Exp(G, m.D2), Exp(m.G2a, m.C2)), nil)) {
+	if !s.Careless && (!eq(m.C2, SMPHash(1, MulP(Exp(G, m.D2), Exp(m.G2a, m.C2)), nil))) {
 		return s.fail(errors.New("refotr: smp1: proof c2 fails"))
 	}
-	if !eq(m.C3, SMPHash(2, MulP(Exp(G, m.D3), Exp(m.G3a, m.C3)), nil)) {
+	if !s.Careless && (!eq(m.C3, SMPHash(2, MulP(Exp(G, m.D3), Exp(m.G3a, m.C3)), nil))) {
 		return s.fail(errors.New("refotr: smp1: proof c3 fails"))
 	}
 	s.Reset()
@@ -373,23 +377,23 @@ func (s *SMPState) Recv2(rnd io.Reader, m *SMP2) (*SMP3, error) {
 	if s.state() != SMPExpect2 {
 		return nil, s.fail(ErrSMPState)
 	}
-	if !InRange(m.G2b) || !InRange(m.G3b) || !InRange(m.Pb) || !InRange(m.Qb) {
+	if !s.Careless && (!InRange(m.G2b) || !InRange(m.G3b) || !InRange(m.Pb) || !InRange(m.Qb)) {
 		return nil, s.fail(errors.New("refotr: smp2: group element out of range"))
 	}
-	if !InRangeQ(m.D2) || !InRangeQ(m.D3) || !InRangeQ(m.D5) || !InRangeQ(m.D6) {
+	if !s.Careless && (!InRangeQ(m.D2) || !InRangeQ(m.D3) || !InRangeQ(m.D5) || !InRangeQ(m.D6)) {
 		return nil, s.fail(errors.New("refotr: smp2: exponent out of range"))
 	}
-	if !eq(m.C2, SMPHash(3, MulP(Exp(G, m.D2), Exp(m.G2b, m.C2)), nil)) {
+	if !s.Careless && (!eq(m.C2, SMPHash(3, MulP(Exp(G, m.D2), Exp(m.G2b, m.C2)), nil))) {
 		return nil, s.fail(errors.New("refotr: smp2: proof c2 fails"))
 	}
-	if !eq(m.C3, SMPHash(4, MulP(Exp(G, m.D3), Exp(m.G3b, m.C3)), nil)) {
+	if !s.Careless && (!eq(m.C3, SMPHash(4, MulP(Exp(G, m.D3), Exp(m.G3b, m.C3)), nil))) {
 		return nil, s.fail(errors.New("refotr: smp2: proof c3 fails"))
 	}
 	g2 := Exp(m.G2b, s.A2)
 	g3 := Exp(m.G3b, s.A3)
 	t1 := MulP(Exp(g3, m.D5), Exp(m.Pb, m.CP))
 	t2 := MulP(MulP(Exp(G, m.D5), Exp(g2, m.D6)), Exp(m.Qb, m.CP))
-	if !eq(m.CP, SMPHash(5, t1, t2)) {
+	if !s.Careless && (!eq(m.CP, SMPHash(5, t1, t2))) {
 		return nil, s.fail(errors.New("refotr: smp2: proof cP fails"))
 	}
 	e, err := randExps(rnd, 4)
@@ -430,21 +434,21 @@ func (s *SMPState) Recv3(rnd io.Reader, m *SMP3) (msg4 *SMP4, success bool, err 
 	if s.state() != SMPExpect3 {
 		return nil, false, s.fail(ErrSMPState)
 	}
-	if !InRange(m.Pa) || !InRange(m.Qa) || !InRange(m.Ra) {
+	if !s.Careless && (!InRange(m.Pa) || !InRange(m.Qa) || !InRange(m.Ra)) {
 		return nil, false, s.fail(errors.New("refotr: smp3: group element out of range"))
 	}
-	if !InRangeQ(m.D5) || !InRangeQ(m.D6) || !InRangeQ(m.D7) {
+	if !s.Careless && (!InRangeQ(m.D5) || !InRangeQ(m.D6) || !InRangeQ(m.D7)) {
 		return nil, false, s.fail(errors.New("refotr: smp3: exponent out of range"))
 	}
 	t1 := MulP(Exp(s.G3, m.D5), Exp(m.Pa, m.CP))
 	t2 := MulP(MulP(Exp(G, m.D5), Exp(s.G2, m.D6)), Exp(m.Qa, m.CP))
-	if !eq(m.CP, SMPHash(6, t1, t2)) {
+	if !s.Careless && (!eq(m.CP, SMPHash(6, t1, t2))) {
 		return nil, false, s.fail(errors.New("refotr: smp3: proof cP fails"))
 	}
 	qaqb := MulP(m.Qa, InvP(s.Qb))
 	u1 := MulP(Exp(G, m.D7), Exp(s.G3a, m.CR))
 	u2 := MulP(Exp(qaqb, m.D7), Exp(m.Ra, m.CR))
-	if !eq(m.CR, SMPHash(7, u1, u2)) {
+	if !s.Careless && (!eq(m.CR, SMPHash(7, u1, u2))) {
 		return nil, false, s.fail(errors.New("refotr: smp3: proof cR fails"))
 	}
 	e, err := randExps(rnd, 1)
@@ -474,15 +478,15 @@ func (s *SMPState) Recv4(m *SMP4) (success bool, err error) {
 	if s.state() != SMPExpect4 {
 		return false, s.fail(ErrSMPState)
 	}
-	if !InRange(m.Rb) {
+	if !s.Careless && (!InRange(m.Rb)) {
 		return false, s.fail(errors.New("refotr: smp4: group element out of range"))
 	}
-	if !InRangeQ(m.D7) {
+	if !s.Careless && (!InRangeQ(m.D7)) {
 		return false, s.fail(errors.New("refotr: smp4: exponent out of range"))
 	}
 	u1 := MulP(Exp(G, m.D7), Exp(s.G3b, m.CR))
 	u2 := MulP(Exp(s.QaQb, m.D7), Exp(m.Rb, m.CR))
-	if !eq(m.CR, SMPHash(8, u1, u2)) {
+	if !s.Careless && (!eq(m.CR, SMPHash(8, u1, u2))) {
 		return false, s.fail(errors.New("refotr: smp4: proof cR fails"))
 	}
 	s.Rb = m.Rb
